@@ -512,7 +512,9 @@ pub fn replay_net(ctx: &NetCtx, c: &Value, rep: &mut Report) {
             // cached, and it loads another image first, so that the rules of the image under test are allocated
             // where earlier generations lived.  The loaded engine must not inherit anything from them.
             let loaded_used = guarded(|| {
-                let bytes = eng.serialize_raw().expect("serialize");
+                // the image is written by an engine on which NO tag is enabled: what a loaded engine honours are
+                // the tags of the engine that loads, not those of the engine that wrote the image
+                let bytes = build_engine(&rules, &[], &ctx.resources, opt).serialize_raw().expect("serialize");
                 let decoy: Vec<String> = (0..8).map(|i| format!("/zq{}*decoy{}^", i, i)).collect();
                 let decoy2: Vec<String> = (0..8).map(|i| format!("|https://other{}.example/*zz{}", i, i)).collect();
                 let mut e3 = Engine::from_rules_parametrised(&decoy, ParseOptions::default(), true, opt);
